@@ -16,7 +16,8 @@ import objlayer as ol
 import objsession as S
 from common import Ctx, Outcome
 
-DRIVERS = ["Index"]
+DRIVERS = ["Index", "Accessor"]
+TABLES = True
 RULE = ("seeded edit histories (create / delete with purging / move between parents / relation edits / attribute sets / "
         "save) over the coupled relations of the corpus models; after every step every UUID ever seen is looked up "
         "and every touched xsi:type searched; distinct = distinct (model, relation kind, op, outcome, step effect); "
@@ -191,7 +192,8 @@ def save_and_check(ctx, out, model, mon: Monitor, tie: S.IndexTie, key):
 def one_history(ctx: Ctx, out: Outcome, key: str, h: int, nsteps: int):
     mon = Monitor(out, ctx)
     tie = S.IndexTie()
-    obs = [mon, TieObserver(out, tie, mon)]
+    import accsession
+    obs = [mon, TieObserver(out, tie, mon), accsession.AccessorTie(out)]
     model = S.run_history(ctx, out, key, nsteps, obs, hist_id=h, weights={"assign": 2})
     # a rejected assignment to a uniqueness-enforcing link relation (the roll-back restores the old link
     # elements: they must be findable again)
